@@ -207,4 +207,85 @@ theorem objStmObjects_nd (d : Dict) (content : Bytes) (l : List (ObjId × Obj)) 
   cases h
   exact dedupLast_vals DeepND _ (pairs_nd content _ _ _ _ (Nat.le_refl _))
 
+/-! ### indirect objects and the trailer -/
+
+theorem pDictionary_nd (inp : Bytes) (d : Dict) (r : Bytes) (h : pDictionary inp = some (d, r)) : DictND d := by
+  unfold pDictionary at h
+  split at h
+  · simp only at h
+    split at h
+    · rename_i es r1 he
+      split at h
+      · cases h; exact (parse_nd _).2.2.2 _ _ _ _ _ _ dictND_nil he
+      · cases h
+    · cases h
+  · cases h
+
+/-- **the trailer dictionary the parser returns is distinct-keyed** -/
+theorem pTrailer_nd (inp : Bytes) (d : Dict) (r : Bytes) (h : pTrailer inp = some (d, r)) : DictND d := by
+  unfold pTrailer at h
+  cases ht : tag TRAILER_WORD inp with
+  | none => rw [ht] at h; cases h
+  | some r0 =>
+    rw [ht] at h; simp only [Option.bind_some] at h
+    cases hd : pDictionary (space r0) with
+    | none => rw [hd] at h; cases h
+    | some p =>
+      obtain ⟨d0, r1⟩ := p
+      rw [hd] at h; simp at h
+      rw [← h.1]; exact pDictionary_nd _ _ _ hd
+
+/-- what an indirect object may be while loading: a finished object, or a stream whose content is still to be read -/
+def LObjND : LObj → Prop
+  | .plain o => DeepND o
+  | .pending d _ => DictND d
+
+theorem pStream_nd (len : ObjId → Option Int) (inp : Bytes) (lo : LObj) (r : Bytes) (h : pStream len inp = .ok lo r) : LObjND lo := by
+  unfold pStream at h
+  split at h
+  · cases h
+  · rename_i d r0 hd
+    have hdn := pDictionary_nd _ _ _ hd
+    split at h
+    · cases h
+    · split at h
+      · cases h
+      · (try simp only at h)
+        split at h
+        · split at h
+          · cases h
+          · split at h
+            · cases h
+            · (try simp only at h)
+              split at h
+              · cases h
+                simp only [LObjND]
+                rw [deepND_stream]
+                exact dictND_set hdn _ _ (by simp [DeepND])
+              · cases h
+        · cases h; exact hdn
+
+/-- **`_indirect_object` returns a distinct-keyed object** (or a pending stream with a distinct-keyed dictionary) -/
+theorem pIndirect_nd (len : ObjId → Option Int) (expected : Option ObjId) (base : Nat) (inp : Bytes) (id : ObjId) (lo : LObj)
+    (h : pIndirect len expected base inp = some (id, lo)) : LObjND lo := by
+  unfold pIndirect at h
+  cases h1 : pUnsigned U32_MAX (space inp) with
+  | none => rw [h1] at h; cases h
+  | some p1 =>
+    rw [h1] at h; simp only [Option.bind_some] at h
+    cases h2 : pUnsigned U16_MAX (space p1.2) with
+    | none => rw [h2] at h; cases h
+    | some p2 =>
+      rw [h2] at h; simp only [Option.bind_some] at h
+      cases h3 : tag OBJ_WORD (space p2.2) with
+      | none => rw [h3] at h; cases h
+      | some r3 =>
+        rw [h3] at h; simp only [Option.bind_some] at h
+        repeat' split at h
+        all_goals (first
+          | (cases h; done)
+          | (cases h; exact pStream_nd _ _ _ _ (by assumption))
+          | (cases h; have hp := pStream_nd _ _ _ _ (by assumption); simpa [LObjND] using hp)
+          | (cases h; exact (parse_nd _).1 _ _ _ _ (by assumption)))
+
 end Lopdf.Ed
